@@ -306,6 +306,9 @@ def scenarios(tier):
               "tail": [["req", 0], ["req", 1], ["wait_any", 1], ["wait_all", 1], ["wait_single", 0, 0]]})
     S.append({"name": "busy_virtual_qubit", "reqs": [K("recv", 0, 1, [0])],
               "tail": [["qalloc", 0], ["req", 0], ["nop"], ["qfree", 0], ["wait_all", 0]]})
+    # the same on the LAST virtual qubit of the unit module (4 qubits): bounds of the "is it still allocated" test
+    S.append({"name": "busy_last_virtual_qubit", "reqs": [K("recv", 0, 1, [3])],
+              "tail": [["qalloc", 3], ["req", 0], ["nop"], ["qfree", 3], ["wait_all", 0]]})
     S.append({"name": "sequential_same_virtual_qubit", "reqs": [K("recv", 0, 2, [0, 0])],
               "tail": [["req", 0], ["wait_pair", 0, 0], ["qfree", 0], ["wait_pair", 0, 1]]})
     # the same kinds of scenario with responses arriving in qlink-interface 1.0 form
